@@ -117,10 +117,12 @@ func (v *AESValue) fromValue(obfuscatedStr string) (string, error) {
 	}
 
 	if v.ttl > 0 {
-		rawParts := strings.Split(string(raw), "|")
-		if len(rawParts) < 2 {
+		// the expiry follows the LAST '|': the URL itself may contain one (in its query)
+		sep := strings.LastIndex(string(raw), "|")
+		if sep < 0 {
 			return "", fmt.Errorf("TTL set but cookie doesn't contain an expiration: '%s'", raw)
 		}
+		rawParts := []string{string(raw[:sep]), string(raw[sep+1:])}
 
 		// validate the ttl
 		i, err := strconv.ParseInt(rawParts[1], 10, 64)
